@@ -28,6 +28,7 @@ from .asttypes import (
     ASTS_LEAF_VAR_SCOPE_DECL,
     ASTS_LEAF_FTSTR,
     ASTS_LEAF__ALL,
+    ASTS_LEAF_EXPR_CONTEXT,
     AST2ASTSLEAF,
 
     AST,
@@ -5646,6 +5647,9 @@ def _leaf_asts_default(pat: _Pattern) -> tp_Set[type[AST]] | None:
         return AST2ASTSLEAF[pat._types]  # will be a single type here
 
     if isinstance(pat, AST):
+        if isinstance(pat, expr_context):  # an expr_context instance matches any other expr_context unless the `ctx` option is on
+            return ASTS_LEAF_EXPR_CONTEXT
+
         return AST2ASTSLEAF[pat.__class__]
 
     if isinstance(pat, str):  # gets here from a subclassed str
